@@ -111,13 +111,17 @@ pub fn cone_event(rng: &mut Rng, depth: u8, dd: u8, lon: f64, lat: f64, r: f64, 
   let k = (lon / HALF_PI).round();
   let cseam = ((lon - k * HALF_PI).abs() < 1e-12 && lat.abs() > 0.7297276562269663) as u8;
   let nearthr = thresholds().iter().any(|t| r < *t && r >= 0.97 * *t) as u8;
-  let base = json!({"ev": "cone", "d": depth, "dd": dd, "cls": class, "allsky": (r >= PI) as u8, "cseam": cseam, "nearthr": nearthr,
+  let tl = 0.7297276562269663;
+  let ccap = (lat.abs() > tl) as u8; // centre in a polar cap
+  // within a few radii of one of the 8 points (k*pi/2, +-asin(2/3)) where three base cells meet
+  let near3 = ((lat.abs() - tl).abs() <= 2.0 * r && (lon - k * HALF_PI).abs() <= 8.0 * r) as u8;
+  let base = json!({"ev": "cone", "d": depth, "dd": dd, "cls": class, "allsky": (r >= PI) as u8, "cseam": cseam, "nearthr": nearthr, "ccap": ccap, "near3": near3,
                     "in": format!("{} r={:e}", pos_str(lon, lat), r)});
   let mut ev = base;
   let m = ev.as_object_mut().unwrap();
   match res {
     None => { m.insert("p".into(), json!(1)); m.insert("dmax".into(), json!(0)); m.insert("cells".into(), json!([])); m.insert("wit".into(), json!([]));
-              m.insert("full_excess".into(), json!(0)); m.insert("slack".into(), json!(0)); m.insert("rtol".into(), json!(0)); m.insert("near9".into(), json!(1)); }
+              m.insert("full_excess".into(), json!(0)); m.insert("slack".into(), json!(0)); m.insert("rtol".into(), json!(0)); m.insert("pen".into(), json!(0)); }
     Some(bm) => {
       if bm.entries.len() > MAX_CELLS { return None; }
       let cells = cells_of(&bm);
@@ -137,6 +141,15 @@ pub fn cone_event(rng: &mut Rng, depth: u8, dd: u8, lon: f64, lat: f64, r: f64, 
       // depth must be the centre cell or adjacent to it (judged by the specification's adjacency)
       m.insert("p".into(), json!(0)); m.insert("dmax".into(), json!(bm.get_depth_max())); m.insert("cells".into(), cells_json(&cells));
       m.insert("wit".into(), Value::Array(wit.iter().map(|c| json!({"b": c.b, "p": c.p})).collect()));
+      // attribution only (the verdict on coverage is TLC's): how deep the cone penetrates the uncovered witness cells,
+      // in 1/1000 of the radius (0 when every witness is covered)
+      let covered = |w: &C| cells.iter().any(|c| c.b == w.b && c.p.len() <= w.p.len() && c.p[..] == w.p[..c.p.len()]);
+      let mut pen: f64 = 0.0;
+      for w in wit.iter().filter(|w| !covered(w)) {
+        let dmin = cell_border_points(w, 15).iter().map(|(l, b)| ang_dist(*l, *b, lon, lat)).fold(f64::MAX, f64::min);
+        pen = pen.max((r - dmin) / r);
+      }
+      m.insert("pen".into(), json!((pen * 1000.0).round() as i64));
       m.insert("full_excess".into(), json!(if r >= PI { -1 } else { e15(full_excess) }));
       m.insert("slack".into(), json!(if r >= PI { -1 } else { e15(slack) }));
       m.insert("rtol".into(), json!((r * 1e6).round() as i64)); // 1e-9 * r in units of 1e-15
@@ -189,6 +202,18 @@ pub fn record_cone(rng: &mut Rng, count: u64, out: &mut Out) {
     let (r, rclass) = gen_radius(rng, &thr);
     let depth = gen_depth(rng, r);
     let dd = if rng.below(3) == 0 { (1 + rng.below(3) as u8).min(29 - depth) } else { 0 };
+    // class "corner": a cone smaller than a cell, just on the equatorial side of the transition latitude and within a few
+    // radii of a meridian k*pi/2, i.e. next to one of the 8 points where three base cells meet and where the elongated
+    // corner cells of the polar cap base cells are only touched by their tip
+    let corner = rng.below(6) == 0;
+    let (lon, lat, r, depth, dd, class) = if corner {
+      let depth = rng.below(30) as u8;
+      let r = cell_size(depth) * rng.range(0.1, 0.45);
+      let sgn = if rng.bool() { 1.0 } else { -1.0 };
+      let lat = sgn * (0.7297276562269663 - r * rng.range(0.0, 1.2));
+      let lon = (rng.below(4) as f64 * HALF_PI + r * rng.range(-6.0, 6.0)).rem_euclid(TWO_PI);
+      (lon, lat, r, depth, 0u8, "corner")
+    } else { (lon, lat, r, depth, dd, class) };
     if let Some(ev) = cone_event(rng, depth, dd, lon, lat, r, if class == "uniform" { rclass } else { class }) { out.emit(ev); }
   }
 }
@@ -325,9 +350,10 @@ pub fn record_c16(rng: &mut Rng, count: u64, out: &mut Out) {
         let k = (lon / HALF_PI).round();
         let cseam = ((lon - k * HALF_PI).abs() < 1e-12 && lat.abs() > 0.7297276562269663) as u8;
         let nearthr = thr.iter().any(|t| r < *t && r >= 0.97 * *t) as u8;
+        let ccap = (lat.abs() > 0.7297276562269663) as u8;
         let wj: Vec<Value> = wit.iter().map(|c| cell_of_hash(ds, hash_of_path(c.b as u64, &c.p)).json()).collect();
         out.emit(json!({"ev": "fits9", "d": ds, "p": h.is_none() as u8, "c": h.map_or(json!([]), |h| crate::sc_nested::cell_json(ds, h)), "wit": wj,
-                        "cseam": cseam, "nearthr": nearthr, "cls": class, "in": format!("{} r={:e}", pos_str(lon, lat), r)}));
+                        "cseam": cseam, "nearthr": nearthr, "ccap": ccap, "cls": class, "in": format!("{} r={:e}", pos_str(lon, lat), r)}));
       }
     }
   }
